@@ -483,6 +483,23 @@ def r4(ctx):
     return rule
 
 
+def r5(ctx):
+    """'at most max_nodes_response records' rests on the table query's cap (C08.R3's cap obligations), re-evaluated here"""
+    import c08
+    rule = Rule("C14.R5", "the table query that feeds the answer is capped: the cap is max_nodes and is tested after every single node", floor=2,
+                engine="A-path (obligations shared with C08.R3)")
+    sub = c08.r3(ctx)
+    sub.finish()
+    rule.functions |= sub.functions
+    for o in sub.obligations:
+        if re.search("cap|max_nodes", o["site"]) and o["verdict"] == "discharged":
+            rule.ok("[%s] %s" % (o["rule"], o["site"]), o.get("detail", ""))
+    for v in sub.violations:
+        if "cap" in v.key or v.key in ("anchor", "floor"):
+            rule.fail("%s|%s" % (v.rule, v.key), v.msg, loc=v.loc, site="[%s] %s" % (v.rule, v.key), path=v.path)
+    return rule
+
+
 def run(ctx):
     G = lambda l, f, *a: guarded("C14." + l, f, ctx, *a)
-    return G("R1", r1) + G("R2-R3", r2_r3) + G("R4", r4)
+    return G("R1", r1) + G("R2-R3", r2_r3) + G("R4", r4) + G("R5", r5)
